@@ -1076,3 +1076,97 @@ func TestC17_R_ConcurrentFirstLookupsOnAHugePlainDirectory(t *testing.T) {
 		}
 	}
 }
+
+// A damaged directory on a trusted store - the block behind one child-shard link is a valid shard of a directory with
+// another fanout - used by sixteen goroutines at once: every lookup through the bad child fails the way it fails alone,
+// every other lookup succeeds.
+func TestC17_R_DamagedChildOfAnotherFanoutUnderConcurrency(t *testing.T) {
+	st := NewStore()
+	var es, oes []entrySpec
+	for i := 0; i < 3000; i++ {
+		es = append(es, entryFor(fmt.Sprintf("entry-%04d", i), 0))
+	}
+	for i := 0; i < 60; i++ {
+		oes = append(oes, entryFor(fmt.Sprintf("other-%02d", i), 0))
+	}
+	root, _, err := buildSharded(st, es, 256)
+	if err != nil {
+		t.Fatal(err)
+	}
+	other, _, err := buildSharded(st, oes, 16)
+	if err != nil {
+		t.Fatal(err)
+	}
+	tree, err := st.ShardTree(root)
+	if err != nil {
+		t.Fatal(err)
+	}
+	bad := tree.ShardsPreOrder()[3]
+	raw, _ := st.Get(other)
+	st.Put(bad, raw)
+	st.Trusted = true
+	ls := st.LinkSystem()
+	var through, around []string
+	for _, e := range es {
+		p := tree.HashPath(e.Name)
+		if len(p) > 0 && p[0] == bad {
+			through = append(through, e.Name)
+		} else if len(around) < 40 {
+			around = append(around, e.Name)
+		}
+	}
+	if len(through) == 0 {
+		t.Fatal("harness: no entry below the damaged child")
+	}
+	alone := func(name string) string {
+		n, err := loadReified(ls, root, "unixfs")
+		if err != nil {
+			t.Fatal(err)
+		}
+		return c17RunScript(n, []c17Op{{Kind: "lookup", Arg: name}})[0]
+	}
+	wantBad := alone(through[0])
+	for trial := 0; trial < 8; trial++ {
+		n, err := loadReified(ls, root, "unixfs")
+		if err != nil {
+			t.Fatal(err)
+		}
+		const G = 16
+		errs := make([]string, G)
+		var wg sync.WaitGroup
+		var ready, start atomic.Int32
+		for g := 0; g < G; g++ {
+			wg.Add(1)
+			go func(g int) {
+				defer wg.Done()
+				ready.Add(1)
+				for start.Load() == 0 {
+				}
+				for i := 0; i < 400; i++ {
+					name := through[(g+i)%len(through)]
+					if got := c17RunScript(n, []c17Op{{Kind: "lookup", Arg: name}})[0]; got != wantBad {
+						errs[g] = fmt.Sprintf("lookup #%d of %q (below the damaged child) returned %q, alone it returns %q", i, name, got, wantBad)
+						return
+					}
+					if i%8 == 0 {
+						name := around[(g+i)%len(around)]
+						if got := c17RunScript(n, []c17Op{{Kind: "lookup", Arg: name}})[0]; strings.HasPrefix(got, "err") {
+							errs[g] = fmt.Sprintf("lookup of %q (not below the damaged child) returned %q", name, got)
+							return
+						}
+					}
+				}
+			}(g)
+		}
+		for ready.Load() < int32(min(G, runtime.GOMAXPROCS(0))) {
+			runtime.Gosched()
+		}
+		start.Store(1)
+		c17Wait(&wg, "lookups through a damaged child")
+		for g, e := range errs {
+			if e != "" {
+				t.Fatalf("C17: %d goroutines on one directory whose child #4 is a shard of another fanout (trial %d): goroutine %d: %s", G, trial, g, e)
+			}
+		}
+	}
+}
